@@ -6,6 +6,7 @@ Gallina encoders evaluated by vm_compute on the same cases (byte-exact preimages
 import json
 import os
 import sys
+import time
 
 import vf
 
@@ -50,13 +51,19 @@ def run(ctx):
                     cwd=ctx.repo, env=ctx.goenv(), timeout=300)
     if rc != 0:
         raise RuntimeError("gen_fieldlists failed:\n" + log[-3000:])
-    pr = ctx.prove()
+    t0 = time.time()
+    pr = ctx.prove(extra_targets=G.EXTRA_TARGETS)
+    ctx.notes.append("timing: translator %.1fs, proof build (incl. waiting for the shared coq lock) %.1fs" % (t0 - ctx.t0, time.time() - t0))
 
     st = G.State(ctx)
     G.run_types_engine(ctx, st)
     for fam in G.EXTRA_FAMILIES:
+        t1 = time.time()
         fam(ctx, st)
+        ctx.notes.append("timing: %s %.1fs" % (fam.__name__, time.time() - t1))
+    t1 = time.time()
     G.evaluate_model(ctx, st)
+    ctx.notes.append("timing: model evaluation %.1fs" % (time.time() - t1))
 
     ctx.cov["evaluations"] = st.evals
     ctx.cov["traces_validated_against_impl"] = st.evals
@@ -64,9 +71,14 @@ def run(ctx):
     ctx.cov["rule"] = st.rule()
     ctx.cov["input_distribution"] = st.dist
 
-    # ---- decide (direct-predicate failures first)
-    for key, what, case in st.findings[:6]:
-        ctx.finding(key, what, case)
+    # ---- decide (direct-predicate failures first; one report per failing class)
+    seen = set()
+    for key, what, case in st.findings:
+        if key in seen:
+            continue
+        seen.add(key)
+        if len(seen) <= 12:
+            ctx.finding(key, what, case)
     real_fail = [f for f in st.findings if ctx.known_match(f[0]) is None]
     if not pr["ok"] and not real_fail:
         ctx.violation("proof obligation no longer checks: %s" % pr["broken"],
